@@ -50,7 +50,20 @@ func freshMap(v ssa.Value) bool {
 	if !ok {
 		return false
 	}
-	return isStaticCall(c.Common(), "/wrapper", "", "CreateConcurrentSwissMap")
+	if isStaticCall(c.Common(), "/wrapper", "", "CreateConcurrentSwissMap") {
+		return true
+	}
+	// a constructor helper of the module whose single block returns such a call (`newVbMap[X]()`)
+	if g := c.Common().StaticCallee(); g != nil && len(g.Blocks) == 1 && strings.HasPrefix(pkgPathOf(g), modPath) {
+		for _, in := range g.Blocks[0].Instrs {
+			if r, isR := in.(*ssa.Return); isR && len(r.Results) == 1 {
+				if c2, isC := unwrap(r.Results[0]).(*ssa.Call); isC && isStaticCall(c2.Common(), "/wrapper", "", "CreateConcurrentSwissMap") {
+					return true
+				}
+			}
+		}
+	}
+	return false
 }
 
 // gocbEventKinds are the three document event kinds of gocbcore.
